@@ -300,6 +300,13 @@ func (e *Engine) storePtr(st *State, p PtrV, v Val) {
 	o := st.obj(p.Obj)
 	switch o.kind {
 	case okVal:
+		if np, ok := v.(PtrV); ok && e.threadMode {
+			// `return x` with a named, captured result x stores x into itself in go/ssa (the compiler elides it)
+			if op, ok := getPath(o.v, p.Path).(PtrV); ok && op.Obj == np.Obj && op.Idx == np.Idx && fmt.Sprint(op.Path) == fmt.Sprint(np.Path) {
+				e.access(st, p, false)
+				return
+			}
+		}
 		e.access(st, p, true)
 		if ev, ok := getPath(o.v, p.Path).(EmbV); ok {
 			e.storePtr(st, PtrV{Obj: ev.Obj, Idx: e.tb.BV(0, 64)}, v)
